@@ -1,4 +1,6 @@
 import Sidetree.Client
+import Sidetree.Vdr
+import Sidetree.Drv.Did
 import Sidetree.Drv.Keys
 namespace Sidetree.Drv
 open Sidetree Sidetree.Client
@@ -167,5 +169,27 @@ def lifecycleKind (c : Json) : Json :=
   match go {} 0 (getArr c "steps") [] with
   | some steps => .obj [("steps", .arr steps)]
   | none => outOfDomain "no signature verdict supplied for a signing input the model derived"
+
+/-- kind `vdr` (C17): VDR.Create of a did-go document, then VDR.Read of the DID it returned -/
+def vdrKind (c : Json) : Json :=
+  let d := c.getD "doc"
+  let ver : List Vdr.VerEntry := Vdr.relationshipOrder.flatMap fun rel =>
+    (getArr d rel).map fun e =>
+      { purpose := rel, id := getStr e "id", type := getStr e "type", jwk := optMember e "jwk",
+        value := match e.get? "value" with | some (.str h) => bytesOfHex? h.toList | _ => none }
+  let services := (getArr d "services").map docServiceOf
+  let aka := getStrList d "aka"
+  match pubJwk (c.get? "updateKey"), pubJwk (c.get? "recoveryKey") with
+  | some uk, some rk =>
+    let method := getStr c "method"
+    match Vdr.create hashFam (oraclesOf c) method ver services aka uk rk with
+    | none => .obj [("class", .str "err")]
+    | some r =>
+      let id := getStr (r.getD "didDocument") "id"
+      let again := match Did.resolve hashFam (oraclesOf c) ("did:" ++ method) id with
+        | some a => a
+        | none => .str "err"
+      .obj [("class", .str "ok"), ("result", r), ("read", again)]
+  | _, _ => .obj [("class", .str "err")]
 
 end Sidetree.Drv
